@@ -190,6 +190,12 @@ func (publisher *Publisher) Places() map[string]*place {
 
 		// Get all of the unique place names.
 		for placeTag, node := range publisher.doc.Places() {
+			// Hidden individuals do not contribute places either.
+			if publisher.options.LivingVisibility == LivingVisibilityHide &&
+				individualForNode(publisher.doc, node).IsLiving() {
+				continue
+			}
+
 			prettyName := prettyPlaceName(placeTag.Value())
 
 			if prettyName == "" {
